@@ -69,21 +69,19 @@ Qed.
 
 (* ---------- simulation of the non-validating decoder ---------- *)
 (* [csim x y]: x is the converter's result, y the decoder's.  Both succeed with the same rest,
-   or both fail (with Fuel at the same time); the converter may in addition fail with
-   Overflow wherever the decoder goes on. *)
+   or both fail with the same error kind -- except that the converter says UnexpectedEoi where
+   the decoder says InvalidSerialization (a short Bytes1 payload); the converter may in addition
+   fail with Overflow wherever the decoder goes on. *)
 Definition csim {O A} (x : result (O * list N)) (y : result (A * list N)) : Prop :=
   match x, y with
   | Err Overflow, _ => True
   | Ok (_, r), Ok (_, r') => r = r'
-  | Err e, Err e' => e = Fuel <-> e' = Fuel
+  | Err e, Err e' => e = e' \/ (e = Eoi /\ e' = Invalid)
   | _, _ => False
   end.
 
 Lemma csim_ovf {O A} (y : result (A * list N)) : @csim O A (Err Overflow) y.
 Proof. exact I. Qed.
-
-Lemma csim_err {O A} e e' : e <> Fuel -> e' <> Fuel -> @csim O A (Err e) (Err e').
-Proof. intros H H'. destruct e; cbn [csim]; tauto. Qed.
 
 Lemma csim_bind {O P A B} (e : result (O * list N)) (e' : result (A * list N))
       (k : O * list N -> result (P * list N)) (k' : A * list N -> result (B * list N)) :
@@ -99,7 +97,7 @@ Qed.
 Lemma csim_bind_same {X O A} (e : result X) (k : X -> result (O * list N)) (k' : X -> result (A * list N)) :
   (forall x, csim (k x) (k' x)) -> csim (bind e k) (bind e k').
 Proof.
-  destruct e as [x|er]; cbn [bind]; [auto|]. intros _. destruct er; cbn [csim]; tauto.
+  destruct e as [x|er]; cbn [bind]; [auto|]. intros _. destruct er; cbn [csim]; auto.
 Qed.
 
 (* the converter returns [Ok (g a, r)] where the decoder returns [Ok (g' a, r)] *)
@@ -115,22 +113,22 @@ Proof.
   - apply csim_bind_same. intros [z r]. reflexivity.
   - apply csim_bind_same. intros [n r]. apply csim_bind_same. intros [s r']. reflexivity.
   - destruct (take 16 b) as [[s r]|e] eqn:E; cbn [bind csim]; [reflexivity|].
-    apply take_err in E as [-> _]. tauto.
+    apply take_err in E as [-> _]. auto.
 Qed.
 
 Lemma csim_loop1 {O A} (elem : list N -> result (O * list N)) (elem' : list N -> result (A * list N)) :
   csim_w elem elem' -> forall n cnt b, csim (loop1 elem n cnt b) (loop1 elem' n cnt b).
 Proof.
-  intros He. induction n as [|n IH]; intros cnt b; cbn [loop1]; destruct (cnt =? 0); cbn [csim]; try tauto.
+  intros He. induction n as [|n IH]; intros cnt b; cbn [loop1]; destruct (cnt =? 0); cbn [csim]; auto.
   apply csim_bind; [apply He|]. intros o a r. apply csim_bind; [apply IH|]. intros os xs r'. reflexivity.
 Qed.
 
 Lemma csim_loop2 {O A} (elem : list N -> result (O * list N)) (elem' : list N -> result (A * list N)) :
   csim_w elem elem' -> forall n b, csim (loop2 elem n b) (loop2 elem' n b).
 Proof.
-  intros He. induction n as [|n IH]; intros b; cbn [loop2 csim]; [tauto|].
-  destruct b as [|k r]; cbn [csim]; [split; discriminate|].
-  destruct (kind_of_byte k) as [[]|]; cbn [csim]; try (split; discriminate); try reflexivity.
+  intros He. induction n as [|n IH]; intros b; cbn [loop2 csim]; [auto|].
+  destruct b as [|k r]; cbn [csim]; [auto|].
+  destruct (kind_of_byte k) as [[]|]; cbn [csim]; auto.
   apply csim_bind; [apply He|]. intros o a r1. apply csim_bind; [apply IH|]. intros os xs r2. reflexivity.
 Qed.
 
@@ -155,13 +153,13 @@ Lemma conv_body_sim (rec : cwalker) (rec' : walker Value) n :
   (forall d, csim_w (rec d) (rec' d)) -> forall d, csim_w (conv_body rec n d) (de_body false rec' n d).
 Proof.
   intros Hr d b. unfold conv_body, de_body, conv_kind, de_kind.
-  destruct (_ <? _)%nat; cbn [csim]; [split; discriminate|].
-  destruct b as [|k r]; cbn [csim]; [split; discriminate|].
-  destruct (kind_of_byte k) as [kd|]; cbn [csim]; [|split; discriminate].
+  destruct (_ <? _)%nat; cbn [csim]; [auto|].
+  destruct b as [|k r]; cbn [csim]; [auto|].
+  destruct (kind_of_byte k) as [kd|]; cbn [csim]; [|auto].
   destruct kd as [| | |i|f| |e|e|e kk|e kk|e|].
   - reflexivity.
   - apply csim_bind; [apply Hr|]. intros o v r'. reflexivity.
-  - destruct r; cbn [csim]; [split; discriminate|reflexivity].
+  - destruct r; cbn [csim]; [auto|reflexivity].
   - apply csim_bind_same. intros [z r']. reflexivity.
   - apply csim_bind_same. intros [bs r']. reflexivity.
   - apply csim_bind_same. intros [len r1]. apply csim_bind_same. intros [s r2]. reflexivity.
@@ -172,11 +170,11 @@ Proof.
   - destruct e.
     + apply csim_bind_same. intros [cnt r1].
       destruct (take cnt r1) as [[bs r2]|e] eqn:E; cbn [bind csim]; [reflexivity|].
-      apply take_err in E as [-> _]. split; discriminate.
+      apply take_err in E as [-> _]. right. split; reflexivity.
     + apply csim_bind_same. intros [len r1].
       destruct (bytes2_loop Invalid n len r1) as [[bs r2]|e]; cbn [bind].
       * destruct (_ <=? _); cbn [csim]; auto.
-      * destruct e; cbn [csim]; tauto.
+      * destruct e; cbn [csim]; auto.
   - destruct e.
     + apply csim_bind_same. intros [cnt r1].
       apply csim_bind; [apply csim_loop1, csim_map_elem, Hr|]. intros os xs r2. reflexivity.
@@ -194,7 +192,7 @@ Qed.
 
 Theorem conv_sim : forall f d b, csim (conv f d b) (de false f d b).
 Proof.
-  induction f as [|f IH]; intros d b; cbn [conv de csim]; [tauto|].
+  induction f as [|f IH]; intros d b; cbn [conv de csim]; [auto|].
   apply conv_body_sim. intros d' b'. apply IH.
 Qed.
 
@@ -223,7 +221,28 @@ Theorem conv_enough f d b : (length b < f)%nat -> conv f d b <> Err Fuel.
 Proof.
   intros Hb E. pose proof (conv_sim f d b) as S. rewrite E in S.
   destruct (de false f d b) as [[v r']|e] eqn:D; cbn [csim] in S; [contradiction|].
-  apply (de_enough false f d b Hb). rewrite D. f_equal. apply S. reflexivity.
+  destruct S as [<-|[S _]]; [exact (de_enough false f d b Hb D)|discriminate].
+Qed.
+
+(* error kinds: the converter fails with the decoder's error kind, except Eoi for Invalid (short
+   Bytes1 payload) and the additional Overflow *)
+Lemma conv_err_de f d b e :
+  conv f d b = Err e ->
+  e = Overflow \/ exists e', de false f d b = Err e' /\ (e = e' \/ (e = Eoi /\ e' = Invalid)).
+Proof.
+  intros H. pose proof (conv_sim f d b) as S. rewrite H in S.
+  destruct (de false f d b) as [[v r']|e'] eqn:D; cbn [csim] in S.
+  - destruct e; try contradiction. auto.
+  - destruct e; eauto.
+Qed.
+
+Lemma de_err_conv f d b e' :
+  de false f d b = Err e' ->
+  exists e, conv f d b = Err e /\ (e = Overflow \/ e = e' \/ (e = Eoi /\ e' = Invalid)).
+Proof.
+  intros H. pose proof (conv_sim f d b) as S. rewrite H in S.
+  destruct (conv f d b) as [[o r]|e] eqn:C; cbn [csim] in S; [contradiction|].
+  exists e. split; [reflexivity|]. destruct e; auto.
 Qed.
 
 Corollary conv_value_stable b f x :
